@@ -132,31 +132,66 @@ def observe_quantity(text):
 
 def snapshot(q):
     v = q.magnitude.value
-    return (np.array(v, dtype=float).tolist(), q.baseunits.expression,
+    return (as_float(v), q.baseunits.expression,
             [[k, frac_pair(e)] for k, e in q.baseunits.baseunits.items()],
             None if q.magnitude.error is None else np.array(q.magnitude.error, dtype=float).tolist())
 
 
+def mag_in(x):
+    """harness magnitude -> what is handed to Quantity: float | list (array) | {"dec": text} -> Decimal"""
+    if isinstance(x, dict):
+        from decimal import Decimal
+        return Decimal(x["dec"])
+    return list(x) if isinstance(x, list) else x
+
+
+def mag_float(x):
+    """the numeric value of a harness magnitude (for evaluating obligation terms)"""
+    if isinstance(x, dict):
+        return float(x["dec"])
+    return np.array(x, dtype=float) if isinstance(x, list) else float(x)
+
+
+def mag_kind(x):
+    return "decimal" if isinstance(x, dict) else "array" if isinstance(x, list) else "float"
+
+
+def kind_of(v):
+    from decimal import Decimal
+    if isinstance(v, Decimal):
+        return "decimal"
+    if isinstance(v, np.ndarray):
+        return "array"
+    return "float"
+
+
+def as_float(v):
+    from decimal import Decimal
+    if isinstance(v, Decimal):
+        return float(v)
+    return np.array(v, dtype=float).tolist()
+
+
 def conv_value(x, u, v):
-    """Quantity(x,u).value(v) on a fresh object -> ('val', value, unchanged?) | ('err', text, unchanged?)"""
+    """Quantity(x,u).value(v) on a fresh object -> ('val', value, unchanged?, kind of the result) | ('err', text, unchanged?)"""
     from scinumtools.units import Quantity
     try:
-        q = Quantity(x if not isinstance(x, list) else list(x), u)
+        q = Quantity(mag_in(x), u)
     except Exception as e:
         return ("err", "construct: " + type(e).__name__ + ": " + str(e.args[:1])[:100], True)
     before = snapshot(q)
     try:
         r = q.value(v)
-        return ("val", np.array(r, dtype=float).tolist(), snapshot(q) == before)
+        return ("val", as_float(r), snapshot(q) == before, kind_of(r))
     except Exception as e:
         return ("err", type(e).__name__ + ": " + str(e.args[:1])[:100], snapshot(q) == before)
 
 
 def conv_to(x, u, v):
-    """Quantity(x,u).to(v) on a fresh object -> ('val', value, units expression, converted in place?) | ('err', text, unchanged?)"""
+    """Quantity(x,u).to(v) on a fresh object -> ('val', value, units expression, converted in place?, kind) | ('err', text, unchanged?)"""
     from scinumtools.units import Quantity
     try:
-        q = Quantity(x if not isinstance(x, list) else list(x), u)
+        q = Quantity(mag_in(x), u)
     except Exception as e:
         return ("err", "construct: " + type(e).__name__ + ": " + str(e.args[:1])[:100], True)
     before = snapshot(q)
@@ -164,6 +199,6 @@ def conv_to(x, u, v):
         r = q.to(v)
         # in place: the object the caller holds now carries the converted value and units (identity of the
         # returned object is not required, equality with it is)
-        return ("val", np.array(r.magnitude.value, dtype=float).tolist(), r.baseunits.expression, snapshot(r) == snapshot(q))
+        return ("val", as_float(r.magnitude.value), r.baseunits.expression, snapshot(r) == snapshot(q), kind_of(r.magnitude.value))
     except Exception as e:
         return ("err", type(e).__name__ + ": " + str(e.args[:1])[:100], snapshot(q) == before)
